@@ -4,8 +4,7 @@ from harness import cxx_run as X
 
 class C10(ProgProp):
     id = 'C10'
-    theorems = ['C10.all_bound_ok', 'C10.detect_unbound_boundary', 'C10.detect_unbound_component',
-                'C10.locked_after_success']
+    theorems = ['C10.checkPort_none_iff', 'C10.checkPort_error', 'C10.detect_unbound_boundary', 'C10.detect_unbound_component', 'C10.locked_after_success', 'C10.all_bound_ok']
     proof_modules = ['DznProofs.C10']
     scripts_per_program = 1
     level_rule = ('compiled programs; scenarios: everything bound (final succeeds, parent recorded) and, for EVERY '
